@@ -18,7 +18,8 @@ EXES = ["m_devseq"]
 GEN = False
 THEOREMS = ["inputValue_spec", "inputValue_spec_queried", "inputValue_core", "setFilter_spec",
             "queryFilter_spec", "setScheme_spec", "setScheme_invalid", "autodiscover_spec",
-            "autodiscover_mapping", "faults_benign_autodiscover", "faults_benign_inputValue",
+            "autodiscover_mapping", "faults_benign_autodiscover", "faults_skip_autodiscover",
+            "faults_benign_inputValue",
             "faults_benign_filter", "setFilter_old_code_wrong"]
 TRUSTED = [
     "hand-written models Model/DevSeq.lean of dali/device/sequences.py and helpers.py (tied by this lock-step "
@@ -278,7 +279,9 @@ def _correspond(ctx, corr, rng, T, ls):
         "given/queried x drifting values; SetEventFilters/QueryEventFilters for 11 filter enums (library + "
         "user-defined 1..24 members) x single bits/all ones/random x random stale DTRs; SetEventSchemes 0..4, members "
         "and invalid; autodiscover on buses of 0..64 devices with random status bits / 0..32 instances / flags / types "
-        "and every address-argument form; silence and framing error injected at each command position. "
+        "and every address-argument form; silence and framing error injected at each command position (the "
+        "post-condition depends on the fault: the affected instance/device is skipped, a read-back gives None, an "
+        "input value DALISequenceError). "
         "non-trivial = distinct (sequence, outcome class, width/resolution/fault kind) combinations")
 
     # ---- check_bad_rsp: exhaustive ----------------------------------------------------------
@@ -460,6 +463,32 @@ def _correspond(ctx, corr, rng, T, ls):
         n += 1
         if nd in (1, 2, 3, 5) or (T and nd < 12):
             with_faults(ls, corr, suite + "_faults", sc, "autodiscover", len(trace), rng, limit=None if T else 40)
+    # a missing / garbled answer at EVERY command position of buses on which every kind of answer occurs
+    # (healthy devices with enabled and disabled instances, an unhealthy device, an absent address, an
+    # address scanned twice): the fault-dependent post-condition says the affected instance / device is
+    # skipped and everything else is recorded.
+    for rep in range(4 if T else 2):
+        aa = rng.sample(range(64), 5)
+        devs = {}
+        for a in aa[:3]:
+            flags = [True, False, True, True, False][:rng.randrange(2, 6)]
+            rng.shuffle(flags)
+            flags[0] = True
+            devs[a] = rand_dev(rng, insts=[rand_inst(rng, en=e) for e in flags],
+                               status=rng.choice([0, 0, 2, 8, 0x20, 0x10]))
+        devs[aa[3]] = rand_dev(rng, ninst=2, status=rng.choice([0x04, 0x40, 0x44]))
+        order = aa[:]                                  # aa[4] is absent
+        rng.shuffle(order)
+        if rep % 2 == 1:
+            order.append(aa[0])                        # scanned twice
+        sc = {"suite": suite, "bus": bus_line(devs), "call": {"kind": "autodiscover", "form": "list", "addrs": order}}
+        end, res, badop, trace = run_scenario(ls, sc)
+        judge(corr, suite, sc, end, res, badop, "autodiscover")
+        corr.nontrivial(("autodiscover-every-fault", rep, len(trace)))
+        n += 1
+        with_faults(ls, corr, suite + "_faults", sc, "autodiscover", len(trace), rng)
+        for t in trace:
+            corr.bump("autodiscover-fault-at:" + t[0])
     # bracket: first/last command of the real code (read off the trace) on a mid-size bus
     if trace:
         if trace[0][0] != "StartQuiescentMode" or trace[-1][0] != "StopQuiescentMode":
